@@ -53,7 +53,7 @@ class XmlContext:
         self.attribute_name_generator = attribute_name_generator
         self.class_type = class_types.get_type(class_type)
 
-        self.cache: dict[type, XmlMeta] = {}
+        self.cache: dict[tuple[type, str | None], XmlMeta] = {}
         self.xsi_cache: dict[str, list[type]] = defaultdict(list)
         self.models_package = models_package
         self.sys_modules = 0
@@ -192,7 +192,7 @@ class XmlContext:
         """
 
         def get_field_diff(clazz: type) -> int:
-            meta = self.cache[clazz]
+            meta = self.build(clazz)
             local_names = {var.local_name for var in meta.get_all_vars()}
             return len(local_names - field_names)
 
@@ -251,10 +251,11 @@ class XmlContext:
         Returns:
             The class binding metadata instance.
         """
-        if clazz not in self.cache:
+        key = (clazz, parent_ns)
+        if key not in self.cache:
             builder = self.get_builder(globalns)
-            self.cache[clazz] = builder.build(clazz, parent_ns)
-        return self.cache[clazz]
+            self.cache[key] = builder.build(clazz, parent_ns)
+        return self.cache[key]
 
     def build_recursive(self, clazz: type, parent_ns: str | None = None) -> None:
         """Build the binding metadata for the given class and all of its dependencies.
@@ -265,7 +266,7 @@ class XmlContext:
             clazz: The class type
             parent_ns: The inherited parent namespace
         """
-        if clazz not in self.cache:
+        if (clazz, parent_ns) not in self.cache:
             meta = self.build(clazz, parent_ns)
             for var in meta.get_all_vars():
                 types = var.element_types if var.elements else var.types
